@@ -128,7 +128,9 @@ class SgBackend(Backend):
 
         if len(node_ids) > 0:
             graph.add_nodes(node_ids, **node_attrs)
-            graph.add_edges(edge_ids, **edge_attrs)
+            # spatial-graph cannot add an empty batch of edges (IndexError)
+            if len(edge_ids) > 0:
+                graph.add_edges(edge_ids, **edge_attrs)
 
         return graph
 
